@@ -11,6 +11,7 @@ import (
 	"strconv"
 	"strings"
 	"sync"
+	"sync/atomic"
 	"time"
 
 	"golang.org/x/tools/go/ssa"
@@ -24,6 +25,7 @@ type OblResult struct {
 	Trivial  int      `json:"trivial"`
 	Solver   string   `json:"solver,omitempty"`
 	Seconds  float64  `json:"seconds"`
+	MaxPathS float64  `json:"max_path_s"`
 	Where    string   `json:"where,omitempty"`
 	Src      string   `json:"src,omitempty"`
 	Cover    bool     `json:"cover,omitempty"`
@@ -194,7 +196,7 @@ func verify(c *Ctx, sel func(ct *Contract) bool, want func(name string, tags []s
 			results[i].Status = "vacuous"
 		}
 	}
-	for w := 0; w < 16; w++ {
+	for w := 0; w < 8; w++ {
 		wg.Add(1)
 		go func() {
 			defer wg.Done()
@@ -237,6 +239,9 @@ func verify(c *Ctx, sel func(ct *Contract) bool, want func(name string, tags []s
 				sr := solver.Solve(ob.Name, q, true)
 				mu.Lock()
 				r.Seconds += sr.Seconds
+				if sr.Seconds > r.MaxPathS {
+					r.MaxPathS = sr.Seconds
+				}
 				if len(q) > r.QueryLen {
 					r.QueryLen = len(q)
 				}
@@ -284,7 +289,7 @@ func verify(c *Ctx, sel func(ct *Contract) bool, want func(name string, tags []s
 func (s *Solver) SolveCover(q string) SolveResult {
 	save := s.Timeout
 	_ = save
-	file := filepath.Join(s.WorkDir, fmt.Sprintf("cover-%d.smt2", time.Now().UnixNano()))
+	file := filepath.Join(s.WorkDir, fmt.Sprintf("cover-%d-%d.smt2", time.Now().UnixNano(), atomic.AddInt64(&fileSeq, 1)))
 	os.WriteFile(file, []byte(q+"(check-sat)\n"), 0644)
 	defer os.Remove(file)
 	t0 := time.Now()
